@@ -8,6 +8,7 @@ package main
 // it handed out; otherwise two objects get the same number.
 
 import (
+	"go/types"
 	"fmt"
 	"go/token"
 	"strings"
@@ -353,4 +354,155 @@ func ruleFreshCounters(p *Prog, r *Report, rule string, pkgs map[string]bool, fl
 		r.add(rule, "fresh-kept|"+row[0]+"|"+row[1], pos, "the value stored into "+row[1]+" in "+row[0]+" still comes from a counter that lives across the loop's iterations ("+row[3]+")", found[k],
 			"the audited numbering no longer takes its numbers from a running counter: every object numbered in one run gets the same number")
 	}
+}
+
+// R08.f2: a fresh number is tested against the numbers in use in the pass that hands it out.
+// For the audited hand-outs (tables/fresh_used_audit.tsv) the loop that contains the store
+// also contains a map lookup whose key is the counter that is stored: `for used[n] != nil { n++ }`
+// in front of `x.seq = n`, inside the loop over the new entries.  With the search in front of
+// that loop only the first number is tested; the next one can be a number the device uses.
+func ruleFreshTestedAgainstUsed(p *Prog, r *Report, rule string) {
+	r.rule(rule, "A fresh sequence number is tested against the numbers in use each time one is handed out: for the audited hand-outs (tables/fresh_used_audit.tsv) the innermost loop around the store into the number field contains a map lookup keyed by the counter being stored (`for used[*seq] != nil { *seq += incr }`). A search hoisted in front of the loop tests the first number only; the second new entry can land on a number the device already uses and overwrite that entry.")
+	n := 0
+	for _, row := range readTable("fresh_used_audit.tsv", 3) {
+		fn := p.Fn(row[0])
+		if fn == nil {
+			r.fail(rule, "anchor|"+row[0], "", "function not found", "")
+			continue
+		}
+		loops := loopsOf(fn)
+		found := 0
+		okAll := true
+		for _, b := range fn.Blocks {
+			for _, in := range b.Instrs {
+				st, ok := in.(*ssa.Store)
+				if !ok {
+					continue
+				}
+				fa, ok := st.Addr.(*ssa.FieldAddr)
+				if !ok || fieldName(fa) != row[1] {
+					continue
+				}
+				// innermost loop (by size) that contains the store
+				var body map[*ssa.BasicBlock]bool
+				for _, bd := range loops {
+					if bd[b] && (body == nil || len(bd) < len(body)) {
+						body = bd
+					}
+				}
+				if body == nil {
+					continue
+				}
+				// the store's value: a load of a counter cell (possibly through a pointer phi)
+				cells := map[ssa.Value]bool{}
+				var collect func(v ssa.Value, d int)
+				collect = func(v ssa.Value, d int) {
+					if v == nil || d > 6 {
+						return
+					}
+					switch x := v.(type) {
+					case *ssa.UnOp:
+						if x.Op == token.MUL {
+							cells[x.X] = true
+							if ph, ok := x.X.(*ssa.Phi); ok {
+								for _, e := range ph.Edges {
+									cells[e] = true
+								}
+							}
+						}
+					case *ssa.Phi:
+						for _, e := range x.Edges {
+							collect(e, d+1)
+						}
+					case *ssa.BinOp:
+						collect(x.X, d+1)
+						collect(x.Y, d+1)
+					}
+				}
+				collect(st.Val, 0)
+				// or the number comes out of a search helper called in the loop: a function or closure
+				// that looks its argument up in a map (`nextFree(seq, incr)`)
+				viaHelper := false
+				{
+					seen := map[ssa.Value]bool{}
+					var walk func(v ssa.Value, d int)
+					walk = func(v ssa.Value, d int) {
+						if v == nil || seen[v] || d > 8 {
+							return
+						}
+						seen[v] = true
+						switch x := v.(type) {
+						case *ssa.Phi:
+							for _, e := range x.Edges {
+								walk(e, d+1)
+							}
+						case *ssa.BinOp:
+							walk(x.X, d+1)
+							walk(x.Y, d+1)
+						case *ssa.Call:
+							inLoop := false
+							for _, bd := range loops {
+								if bd[b] && bd[x.Block()] {
+									inLoop = true
+								}
+							}
+							if !inLoop {
+								return
+							}
+							for _, cal := range calleesOfSite(p, &callSite{In: x, Fn: fn, Static: x.Common().StaticCallee()}) {
+								if !isModFunc(cal) {
+									continue
+								}
+								for _, g := range treeOf(cal) {
+									for _, gb := range g.Blocks {
+										for _, gi := range gb.Instrs {
+											if lk, ok := gi.(*ssa.Lookup); ok {
+												if _, isMap := lk.X.Type().Underlying().(*types.Map); isMap {
+													viaHelper = true
+												}
+											}
+										}
+									}
+								}
+							}
+						}
+					}
+					walk(st.Val, 0)
+				}
+				if len(cells) == 0 && !viaHelper {
+					continue
+				}
+				found++
+				tested := viaHelper
+				// an enclosing loop of the same hand-out pass counts too: take the innermost loop
+				// that contains the store AND a back edge reached after it (the per-entry loop)
+				for _, bd := range loops {
+					if !bd[b] {
+						continue
+					}
+					for blk := range bd {
+						for _, in2 := range blk.Instrs {
+							lk, ok := in2.(*ssa.Lookup)
+							if !ok {
+								continue
+							}
+							if _, isMap := lk.X.Type().Underlying().(*types.Map); !isMap {
+								continue
+							}
+							if u, ok := lk.Index.(*ssa.UnOp); ok && u.Op == token.MUL && cells[u.X] {
+								tested = true
+							}
+						}
+					}
+				}
+				if !tested {
+					okAll = false
+				}
+			}
+		}
+		n++
+		r.add(rule, "fresh-tested|"+row[0]+"|"+row[1], p.pos(fn.Pos()), fmt.Sprintf("%d hand-out(s) of %s in %s are tested against the numbers in use inside the hand-out loop (%s)", found, row[1], row[0], row[2]), found > 0 && okAll,
+			"no lookup of the counter in the map of used numbers inside the loop that hands the numbers out: only the first number is known to be free")
+	}
+	r.floor(rule, "audited hand-outs tested against used numbers", n, 1)
 }
